@@ -68,10 +68,19 @@ class World(GwWorld):
         self.prior_traffic(tx, rx)
         self._in_prior = False
         self.app.events.clear()
+        self.skip_acks = 0
+        if params.get("inflight") == "before":
+            self.unacked_host_send()
         if params.get("rstack_before"):
             self._deliver("rstack", params["rstack_before"])
             self.loop.settle()
         self._start(params["workload"])
+
+    def unacked_host_send(self):
+        """A host send whose first transmission the NCP leaves unanswered (it is busy restarting); repeats are acknowledged."""
+        self.skip_acks = 1
+        self.host_sends.append(self.loop.create_task(self._host_send()))
+        self.loop.settle()
 
     # -- operations -----------------------------------------------------------------
     def _start(self, kind):
@@ -117,7 +126,9 @@ class World(GwWorld):
                         self.ref_tx = f[1]
                     self.ref_tx = (self.ref_tx + 1) % 8
                 # a prompt NCP acknowledges every DATA frame (first transmission or repeat)
-                if not self.lost:
+                if self.skip_acks > 0:
+                    self.skip_acks -= 1
+                elif not self.lost:
                     self.io_frame(ref_ash.enc_ack((f[1] + 1) % 8), "auto-ack")
 
     # -- environment events -----------------------------------------------------------
@@ -467,6 +478,45 @@ def scripted(kind, code, arrival, prior, workload="reset"):
     return viol, sig
 
 
+def scripted_inflight(prior, when, arrival):
+    """A host DATA frame is outstanding (unacknowledged) when the software-reset RSTACK of a requested reset arrives -- submitted
+    before the request or between the RST and the RSTACK.  The handshake must complete and both directions restart at zero
+    (checked by the post-handshake traffic of _final_checks against the reference counters)."""
+    params = {"workload": "reset", "prior": prior, "resets": 0, "budget": {}, "inflight": when}
+    w = World(params)
+    viol = list(w.viol)
+
+    def st(label):
+        w.step(label)
+        viol.extend(w.viol)
+
+    def settle():
+        n = 0
+        while w.loop.ready_count() and n < 50:
+            st(("run",))
+            n += 1
+
+    settle()
+    if when == "after":
+        w.unacked_host_send()
+        viol.extend(w.viol)
+    if arrival == "late":
+        w.loop._vtime += 0.3      # (still before the first acknowledgement timeout)
+    w._deliver("rstack", SW)
+    w._run_batch(False)
+    viol.extend(w.viol)
+    settle()
+    n = 0
+    while not w.done() and n < 200:
+        st(w.enabled()[0][0])
+        n += 1
+    if not w.done():
+        viol.append("run with an outstanding host DATA frame at the RSTACK did not end")
+    sig = w.signature()
+    w.close()
+    return viol, sig
+
+
 def part1(tier, rep):
     import bellows.types as t
 
@@ -495,6 +545,15 @@ def part1(tier, rep):
                         for v in viol:
                             rep.add_violation(vkey(v), v, {"world": "c11-scripted", "kind": kind, "code": code, "arrival": arrival,
                                                            "prior": list(prior), "workload": workload})
+    for prior in ([(i, j) for i in range(8) for j in range(8)] if tier != "quick" else [(i, (3 * i + 1) % 8) for i in range(8)] + [(0, 0), (7, 7)]):
+        for when in ("before", "after"):
+            for arrival in ("at_once", "late"):
+                viol, sig = scripted_inflight(prior, when, arrival)
+                n += 1
+                sigs.add(("inflight", when, arrival, prior[0] == 0, sig))
+                for v in viol:
+                    rep.add_violation(vkey("outstanding host frame at the RSTACK: " + v), f"host DATA frame outstanding when the RSTACK arrives (submitted {when} the reset request, counters {prior}): {v}",
+                                      {"world": "c11-inflight", "prior": list(prior), "when": when, "arrival": arrival})
     return n, sigs
 
 
@@ -544,6 +603,12 @@ def main(tier: str) -> int:
 
 
 def replay(data) -> int:
+    if data.get("world") == "c11-inflight":
+        viol, sig = scripted_inflight(tuple(data["prior"]), data["when"], data["arrival"])
+        print(sig)
+        for v in viol:
+            print("VIOLATION:", v)
+        return 1 if viol else 0
     if data.get("world") == "c11-scripted":
         viol, sig = scripted(data["kind"], data["code"], data["arrival"], tuple(data["prior"]), data["workload"])
         print(sig)
